@@ -36,6 +36,11 @@ struct File {
 struct FdTable { std::map<int, File*> m; };
 
 FdTable& curTable();
+FdTable& rootFdTable();
+void setTaskTable(int task, FdTable* t);
+ssize_t fileWrite(int fd, File* f, const void* buf, size_t n);
+ssize_t fileRead(int fd, File* f, void* buf, size_t n);
+int fileClose(int fd);
 File* lookup(int fd);
 int installFd(FdTable& t, File* f, int minFd);
 File* newFile(FileKind k);
